@@ -53,9 +53,13 @@ module Nat :
   val modulo : nat -> nat -> nat
 
   val div2 : nat -> nat
+
+  val eq_dec : nat -> nat -> bool
  end
 
 val tl : 'a1 list -> 'a1 list
+
+val in_dec : ('a1 -> 'a1 -> bool) -> 'a1 -> 'a1 list -> bool
 
 val nth : nat -> 'a1 list -> 'a1 -> 'a1
 
@@ -73,7 +77,11 @@ val existsb : ('a1 -> bool) -> 'a1 list -> bool
 
 val forallb : ('a1 -> bool) -> 'a1 list -> bool
 
+val filter : ('a1 -> bool) -> 'a1 list -> 'a1 list
+
 val combine : 'a1 list -> 'a2 list -> ('a1 * 'a2) list
+
+val nodup : ('a1 -> 'a1 -> bool) -> 'a1 list -> 'a1 list
 
 val seq : nat -> nat -> nat list
 
@@ -169,6 +177,8 @@ type ev =
 | Nx of val0
 | Er of err
 | Co
+
+val is_term : ev -> bool
 
 val val_eqb : val0 -> val0 -> bool
 
@@ -638,6 +648,8 @@ val neg_pred : pred -> pred
 
 val plan : opk -> pipe -> pipe list -> (nat * pipe) list * nat list
 
+val init_acts : opk -> pipe -> pipe list -> act list
+
 val hist_replay : subj -> oid -> req list
 
 val handle_sub : world -> nat -> req list
@@ -658,3 +670,18 @@ val dflt_conn : conn
 val init_world : scenario -> world
 
 val run_scenario : nat -> scenario -> req list * world
+
+type observation = { ob_out : nat; ob_log : ((nat * nat) * ev) list;
+                     ob_tap : (nat * ev) list;
+                     ob_probes : (((nat * nat) * nat) * bool) list;
+                     ob_snaps : ((nat * bool list) * nat list) list }
+
+val obs_of_run : (req list * world) -> observation
+
+val ulog : nat -> ((nat * nat) * ev) list -> ev list
+
+val users : ((nat * nat) * ev) list -> nat list
+
+val contract_ok : ev list -> bool
+
+val c01_oracle : observation -> bool
